@@ -276,9 +276,12 @@ def gen_plan(rng, tier):
             ops.append(["export", i])
     clock = datetime.datetime(rng.randrange(1995, 2040), rng.randrange(1, 13), rng.randrange(1, 28),
                               rng.choice([0, 9, 23]), rng.choice([0, 30, 59]), rng.choice([0, 58]))
-    return {"sim": NAME, "slots": initial, "ops": ops,
+    plan = {"sim": NAME, "slots": initial, "ops": ops,
             "clock": {"start": clock.isoformat(), "tick_s": rng.choice([0, 0, 1, 30])},
             "swarm": swarm}
+    if tier == "thorough" and rng.random() < 0.004:
+        plan["cold_crosscheck"] = True
+    return plan
 
 
 def plan_signature(plan):
@@ -613,7 +616,8 @@ def _traced(fault, dry, real):
 
 def _reference(job):
     """Pristine child: the same spec, alone: construct, then the one export."""
-    seams.silence_stdio()
+    if not job.get("keep_stdout"):
+        seams.silence_stdio()
     clock = seams.SimClock(replay=job["readings"])
     seams.install_clock(clock)
     fs = seams.MemFS()
@@ -670,6 +674,13 @@ def execute(plan):
         if key not in cache:
             cache[key] = run_isolated(_reference, job)
             counters["references_computed"] = counters.get("references_computed", 0) + 1
+            if plan.get("cold_crosscheck") and not counters.get("cold_reference_crosschecks"):
+                from ..driver import cold_reference
+
+                cold = cold_reference(NAME, job)
+                counters["cold_reference_crosschecks"] = 1
+                if cold != cache[key]:
+                    raise HarnessError("fork-from-pristine reference differs from a cold interpreter")
         ref = cache[key]
         if ev["kind"] == "construct":
             judged += 1
